@@ -177,6 +177,12 @@ class ScriptGen:
             chosen = [(s, r.choice(slots[s])) for s in tagsel]
         else:
             chosen = tagsel  # explicit [(slot,(tag,ptype,ext))]
+        if chosen and getattr(self, "repeat_slot", 0) and r.random() < self.repeat_slot:
+            # fill one optional slot twice (outside C01/C03's claim, but the parser accepts
+            # it and C04 speaks of every accepted script)
+            s0 = r.choice(chosen)[0]
+            chosen = list(chosen) + [(s0, r.choice(slots[s0]))]
+            r.shuffle(chosen)
         for slot, (t, ptype, ext) in chosen:
             self._need(exts, ext)
             tt = t.encode()
